@@ -15,6 +15,10 @@ class Boom(Exception):
     pass
 
 
+class BoomBase(BaseException):
+    """What escapes a coroutine body need not be an Exception (KeyboardInterrupt, a control-flow signal of the program)."""
+
+
 class CoroutinesAdapter:
     multi = True      # where a coroutine joins the line is free in the specification and shows only a frame later
 
@@ -31,6 +35,8 @@ class CoroutinesAdapter:
         env.proc = desper.CoroutineProcessor()
         env.gens = {}
         env.prom = {}
+        self.counter = getattr(self, 'counter', 0) + 1
+        env.base_exc = self.counter % 2 == 0
         G = self.G
 
         def make(g, script):
@@ -40,7 +46,7 @@ class CoroutinesAdapter:
                 for i, (op, n) in enumerate(script, start=1):
                     if op == 'raise':
                         env.log.append((g, i, '-'))
-                        raise Boom()
+                        raise (BoomBase() if env.base_exc else Boom())
                     if op == 'y':
                         env.log.append((g, i, '-'))
                         if n > 0:
@@ -112,7 +118,7 @@ class CoroutinesAdapter:
             v, ex = guarded(lambda: p.process(args[0] * self.Q))
         else:
             raise AssertionError(name)
-        ret = 'ok' if ex is None else ('raised' if isinstance(ex, Boom) else type(ex).__name__)
+        ret = 'ok' if ex is None else ('raised' if isinstance(ex, (Boom, BoomBase)) else type(ex).__name__)
         del ex
         obs = {'ret': ret, 'log': tuple(env.log), 'type_errors': self.type_errors}
         st, pst, pv, held = {}, {}, {}, {}
